@@ -69,6 +69,7 @@ func vNamesKept(old, new map[string]project.RequirementConfig, tag string) {
 func VHarnessC11Tidy() {
 	nproj, nver := vParam("nproj"), vParam("nver")
 	vShape = vParam("shape")
+	vMajor2 = vParam("major2") == 1
 	vSetNames()
 	r := vSetup(nproj, nver)
 	cfg, _ := vRootConfig(nproj, nver)
@@ -132,6 +133,8 @@ func VHarnessC11Get() {
 	vShape = vParam("shape")
 	vPatchy = vParam("query") == 2
 	vPseudoTop = vPatchy && vParam("pseudo") == 1
+	vPreOnly = vParam("pre") == 1
+	vMajor2 = vParam("major2") == 1
 	vSetNames()
 	r := vSetup(nproj, nver)
 	cfg, _ := vRootConfig(nproj, nver)
@@ -233,6 +236,7 @@ func VHarnessC11Get() {
 func VHarnessC11UpgradeAll() {
 	nproj, nver := vParam("nproj"), vParam("nver")
 	vShape = vParam("shape")
+	vMajor2 = vParam("major2") == 1
 	r := vSetup(nproj, nver)
 	cfg, _ := vRootConfig(nproj, nver)
 	ctx := context.Background()
